@@ -241,7 +241,7 @@ def check(case, ctx):
                                 return
                             g2 = layout.interpret(tr, pm)
                         else:
-                            s = penman.encode(g, top=arg, model=pm)
+                            s = penman.encode(g, top=(arg + ' ')[:-1], model=pm)     # a new str object, as supplied by a caller
                             g2 = penman.decode(s, model=pm)
                             top_expected = arg
                     except Exception as e:      # noqa: BLE001
